@@ -113,7 +113,8 @@ func vFamily(alg string) string {
 // outcome.
 func Harness_C09_jwt() {
 	conf := &LoadedConfig{}
-	hasHMAC := v.Choose("hmac", 2) == 1
+	hmacMode := v.Choose("hmac", 3) // 0: nil, 1: a secret, 2: empty but non-nil (what Config.Load yields when no secret is set)
+	hasHMAC := hmacMode == 1
 	hasRSA := v.Choose("rsa", 2) == 1
 	hasEC := v.Choose("ecdsa", 2) == 1
 	hasJWKS := v.Choose("jwks", 2) == 1
@@ -124,6 +125,10 @@ func Harness_C09_jwt() {
 	jwksCalls := 0
 	if hasHMAC {
 		conf.HMACSecretKey = secret
+	}
+	if hmacMode == 2 {
+		conf.HMACSecretKey = []byte{}
+		v.Cover("empty-hmac-secret")
 	}
 	if hasRSA {
 		conf.RSAPublicKey = rsaKey
